@@ -21,7 +21,12 @@ def run(ctx):
         'count of the returned document, which is the import of the full joined text; public.concat forwards contents and separator '
         'unchanged and separator=None means newline. That exporting pair i reproduces fragment i is not decided (needs C07 on every '
         'prefix).')
-    ctx.not_decided = ['"exporting pair i reproduces the data lines of fragment i" (needs C07 on every prefix document)']
+    ctx.not_decided = ['"exporting pair i reproduces the data lines of fragment i" on all documents (the necessary range / index clauses of C07 are checked as R2)']
+    from . import c07
+    ctx.alias = {'R2': 'R2', 'R3': 'R2', 'R1': 'R2'}
+    c07.r2_arithmetic(ctx)
+    c07.r3_index(ctx)
+    ctx.alias = {}
     f = ctx.prog.func(f'{N.GENERIC}.Generic.concat')
     contents, sepn = f.params[1:3]
     body = docstring_free(f.body)
